@@ -42,7 +42,7 @@ def _profile_functions(path_fn, c, job):
     return seen
 
 
-def run_one(path_fn, job, prefix, profile=False):
+def run_one(path_fn, job, prefix, profile=False, skip_models=()):
     c = Ctx(prefix)
     _CtxBase.cur = c
     funcs = set()
@@ -57,7 +57,7 @@ def run_one(path_fn, job, prefix, profile=False):
     viol = []
     if err is None:
         try:
-            viol = c.finish()
+            viol = c.finish(skip_models)
         except Exception:
             err = traceback.format_exc()
     _CtxBase.cur = None
@@ -76,7 +76,8 @@ def _work(item):
     first = want_profile
     while stack and st["paths"] < chunk:
         p = stack.pop()
-        c, viol, err, funcs = run_one(path_fn, job, p, profile=first)
+        skip = {l for l, n in st["viol_counts"].items() if n >= 3}
+        c, viol, err, funcs = run_one(path_fn, job, p, profile=first, skip_models=skip)
         first = False
         st["funcs"] |= funcs
         st["paths"] += 1
@@ -100,7 +101,7 @@ def _work(item):
             st["poisons"].append((job_idx, list(c.trace), c.poison))
         for v in viol:
             st["viol_counts"][v["label"]] = st["viol_counts"].get(v["label"], 0) + 1
-            if sum(1 for w in st["violations"] if w["label"] == v["label"]) < 3:
+            if v.get("inputs") is not None and sum(1 for w in st["violations"] if w["label"] == v["label"]) < 3:
                 v["job_idx"] = job_idx
                 st["violations"].append(v)
         # deterministic pseudo-random sampling of passing paths for witnesses
